@@ -1968,7 +1968,11 @@ func (t *tScreen) mainLoop(stopQ chan struct{}) {
 			// conclusion, and process the chunk independently.
 			// This lets us detect conflicts such as a lone ESC.
 			if buf.Len() > 0 {
-				if time.Now().After(t.keyexpire) {
+				// (input that has already been read and is waiting in
+				// keychan arrived in time, however long this loop was
+				// busy elsewhere - redrawing after a resize, say: it
+				// is scanned first, together with what is pending)
+				if time.Now().After(t.keyexpire) && len(t.keychan) == 0 {
 					t.scanInput(buf, true, stopQ)
 				}
 			}
